@@ -12,7 +12,7 @@ ENTRY = dict(
         corr_files=["Corr/C15Corr.v"],
         theorems=["c15_rxx_family", "c15_controlled", "c15_cx_family", "c15_cs_family", "c15_swap_family", "c15_move",
                   "c15_rot_list", "c15_nonlocal_list", "c15_u_from_thetavec", "c15_weyl", "c15_weyl_t00", "c15_weyl_tt0",
-                  "c15_local_invariance", "c15_kak_doc_angles", "c15_ge_1",
+                  "c15_weyl_symmetry", "c15_local_invariance", "c15_kak_doc_angles", "c15_ge_1",
                   "c15_basis_invariants", "c15_setter_refuses", "c15_constructor", "c15_basis_invariants_R",
                   "c15_doc_table_sound", "c15_doc_approx", "c15_doc_table_rows", "c15_facts_registry", "c15_facts_source"],
         allowed_axioms=REAL_AXIOMS,
@@ -26,7 +26,10 @@ ENTRY = dict(
                    "move list, the 58-term list, the literal u vectors of swap/iswap, the sign/scale of theta_prime, the delegations of "
                    "cs/csdg/cp/csx/csxdg/dcx/ecr): kappa = 1+2|sin theta| (rxx, ryy, rzz), 1+2|sin(theta/2)| (crx, cry, crz, cp), 3 (cx family), "
                    "1+sqrt2 (cs family), 7 (swap, iswap, dcx), 4 (move); kappa of the KAK path as a closed form in the Weyl coordinates with "
-                   "the corollaries (t,0,0) and (t,t,0) and the documented KAK angles of every family; kappa >= 1; probabilities = |c|/sum|c|, "
+                   "the corollaries (t,0,0) and (t,t,0), its invariance under the Weyl-group moves on (a,b,c) (transpositions, sign changes, shifts by "
+                   "pi/2: the value does not depend on which representative of a local-equivalence class the decomposition returns) and the "
+                   "documented KAK angles of every family (c15_local_invariance — local factors and phase never enter — holds BY CONSTRUCTION "
+                   "of the model and is tied to the source only by the extracted call text and the conjugation streams); kappa >= 1; probabilities = |c|/sum|c|, "
                    "sum 1, overhead = kappa^2 for every coefficient vector and after any sequence of reassignments; every row of the documented "
                    "table (parsed from docs/explanation/index.rst) is sound for the model. The model is compared with the implementation on "
                    ">1000 generated inputs per run (all 20 registered names, rzx/xx_plus_yy/xx_minus_yy, random local conjugations, Haar-random "
@@ -47,5 +50,13 @@ ENTRY = dict(
             "O-KAK: TwoQubitWeylDecomposition returns an exact KAK decomposition (checked numerically per case, 1e-9)",
             "exact real arithmetic; rounding of binary64 is outside the model (comparisons use 1e-12 / 1e-9; dyadic vectors compare exactly)",
             "all-zero coefficient vectors (kappa = 0, NaN probabilities in numpy) are excluded from theorem and harness",
+            "OUT OF SCOPE (lead decision): the basis stores the caller's coefficient OBJECT; editing it in place (basis.coeffs[k] = x, or "
+            "mutating the list passed to the constructor) does not run the setter, so kappa/probabilities stay at their old values until "
+            "coeffs is assigned again, e.g. b = QPDBasis.from_instruction(CXGate()); b.coeffs[0] = 5.0 leaves b.kappa == 3.0. "
+            "'After coefficients are reassigned' is read as: through the setter. Model (value semantics) and judge only look at bases "
+            "after construction or a setter assignment; the sequence stream performs such in-place edits but observes the edited basis "
+            "only after the next setter call, and checks that FRESH bases are unaffected",
+            "judge's kappa for gates on the KAK path is computed from the Weyl coordinates that Qiskit returned (after checking that "
+            "they reproduce the gate to 1e-9), by the formula of c15_nonlocal_list evaluated in numpy",
         ],
     )
